@@ -7,22 +7,24 @@ EXTENDS Pipeline, Json
 
 Trace == ndJsonDeserialize("trace.ndjson")
 
-VARIABLE l          \* next line of Trace to be consumed
-tvars == <<vars, l>>
+VARIABLES l,        \* next line of Trace to be consumed
+          gated     \* the run had the gate between the unlock and pending.Dec() of completeStage: every unlock is an event
+tvars == <<vars, l, gated>>
 
 ASSUME TLCSet(1, 0)
 
-Ev(e) == l <= Len(Trace) /\ Trace[l].ev = e /\ l' = l + 1
+Ev(e) == l <= Len(Trace) /\ Trace[l].ev = e /\ l' = l + 1 /\ (e # "Reset" => UNCHANGED gated)
 Line == Trace[l]
 
 EmptyTree == [x \in {} |-> << >>]
 
 TraceInit ==
-  /\ l = 1
+  /\ l = 1 /\ gated = FALSE
   /\ InitWith(EmptyTree, "none", EmptyTree, EmptyTree, [kids |-> EmptyTree, out |-> EmptyTree, root |-> EmptyTree])
 
 TReset ==
   /\ Ev("Reset")
+  /\ gated' = ("gate" \in DOMAIN Line /\ Line.gate)
   /\ children' = Line.children /\ root' = Line.root
   /\ async' = Line.async /\ outcome' = Line.outcome
   /\ stacks' = [t \in (DOMAIN Line.children) \cup {"main"} |->
@@ -40,8 +42,12 @@ TOp       == Ev("Op") /\ Line.outcome # "none" /\ \E t \in Thread : Has(t, "op")
 TPlanPanic == Ev("PlanPanic") /\ \E t \in Thread : Has(t, "plan") /\ Top(t).s = Line.s
                                              /\ outcome[Line.s] = "planpanic" /\ Plan(t)
 TFinMark  == Ev("FinMark") /\ \E t \in Thread : Has(t, "fin") /\ Top(t).s = Line.s /\ FinMark(t)
+\* completeStage of stage s released the mutex and has not decremented pending yet (the harness' gate)
+TUnlocked == Ev("Unlocked") /\ gated /\ \E t \in Thread : Has(t, "unl") /\ Top(t).s = Line.s /\ FinUnlock(t)
+\* the completion callback ran: the call that brought pending to zero read the first error and completed, or
+\* Pipeline.Execute's recover did; the error flag is the one the specification computes
 TCallback == /\ Ev("Callback")
-             /\ \/ \E t \in Thread : FinDec(t)
+             /\ \/ \E t \in Thread : FinComplete(t)
                 \/ MainComplete
              /\ cbCount' = cbCount + 1
              /\ cbErr' = Line.err
@@ -54,16 +60,20 @@ TQuiesce  == Ev("Quiesce") /\ Quiescent /\ cbCount = 1 /\ Line.calls = 1 /\ UNCH
 
 \* steps the harness cannot observe
 Silent == /\ l <= Len(Trace)
-          /\ \/ \E t \in Thread : Chk(t) \/ Next1(t) \/ (Plan(t) /\ outcome[Top(t).s] # "planpanic") \/ (FinDec(t) /\ cbCount' = cbCount)
+          /\ \/ \E t \in Thread : Chk(t) \/ Next1(t) \/ (Plan(t) /\ outcome[Top(t).s] # "planpanic")
+                                   \* pending.Dec(); complete() of an already completed pipeline
+                                   \/ FinDec(t) \/ (FinComplete(t) /\ cbCount' = cbCount)
+                                   \* the unlock is an event of gated runs only
+                                   \/ (FinUnlock(t) /\ ~gated)
                                    \* the walk of the plan tree between two operators; plan nodes without operator
                                    \/ Kids(t) \/ (OpRun(t) /\ pout[Top(t).n] = "none")
                                    \* a stage completed by executeStage's recover does not pass
                                    \* through the harness' wrapped handlers: no FinEnd event
                                    \/ (FinEnd(t) /\ Top(t).q)
              \/ (MainComplete /\ cbCount' = cbCount)
-          /\ UNCHANGED l
+          /\ UNCHANGED <<l, gated>>
 
-TraceNext == TReset \/ TRegister \/ TOp \/ TPlanPanic \/ TFinMark \/ TCallback \/ TFinEnd \/ TMainRet \/ TQuiesce \/ Silent
+TraceNext == TReset \/ TRegister \/ TOp \/ TPlanPanic \/ TFinMark \/ TUnlocked \/ TCallback \/ TFinEnd \/ TMainRet \/ TQuiesce \/ Silent
 
 TraceSpec == TraceInit /\ [][TraceNext]_tvars
 
@@ -74,5 +84,5 @@ TraceAccepted ==
   IF hw = Len(Trace) + 1 THEN TRUE
   ELSE /\ PrintT(<<"TRACE-REJECTED-AT-LINE", hw>>)
        /\ FALSE
-TraceView == <<vars, l>>
+TraceView == <<vars, l, gated>>
 =============================================================================
